@@ -55,7 +55,8 @@ func (c *Conn) addImport(id importID) *capnp.Client {
 		ent.wireRefs++
 		client, ok := ent.wc.AddRef()
 		if !ok {
-			ent.generation++
+			c.importGen++
+			ent.generation = c.importGen
 			client = capnp.NewClient(&importClient{
 				c:          c,
 				id:         id,
@@ -65,13 +66,19 @@ func (c *Conn) addImport(id importID) *capnp.Client {
 		}
 		return client
 	}
+	// A fresh entry must not start at generation zero again: the Shutdown
+	// of a client that belonged to an earlier entry for the same ID may
+	// still be pending and would mistake the new entry for its own.
+	c.importGen++
 	client := capnp.NewClient(&importClient{
-		c:  c,
-		id: id,
+		c:          c,
+		id:         id,
+		generation: c.importGen,
 	})
 	c.imports[id] = &impent{
-		wc:       client.WeakRef(),
-		wireRefs: 1,
+		wc:         client.WeakRef(),
+		wireRefs:   1,
+		generation: c.importGen,
 	}
 	return client
 }
